@@ -132,6 +132,83 @@ func c05Notify(prefix []int, mode string, pad int) explore.Outcome {
 // c05Backlog: the reader of session A's stream stalls while n notifications are sent to A, then
 // reads again. Whatever SendNotification reported as sent must arrive, once, in sending order; a
 // send that could not be queued must say so.
+// c05SlowReader: like c05Backlog with few notifications, but the reader stays away for 20 (virtual)
+// seconds - longer than any internal patience. A send that reports an error must not have been
+// delivered (it would be counted as not reached although it was), one that reports success must
+// arrive once and in order.
+func c05SlowReader(prefix []int, mode string) explore.Outcome {
+	var viol []explore.Violation
+	obs := &hx.Log{}
+	res := vsched.Run(cfgFor(prefix), func() {
+		vsched.SetBranching(false)
+		w, err := c05New(mode, 2, true)
+		if err != nil {
+			viol = append(viol, V("setup-handshake-fails", "setting the scenario up with well-behaved peers fails: %v", err))
+			return
+		}
+		w.peers[0].Stream.Stall(true)
+		results := map[string]error{}
+		var order []string
+		done := &hx.Flag{}
+		var bn int
+		var berr error
+		vsched.Go("sender", func() {
+			for i := 0; i < 3; i++ {
+				tag := fmt.Sprintf("s%d", i)
+				results[tag] = w.send(0, tag, 0)
+				order = append(order, tag)
+			}
+			if w.r.Server != nil {
+				bn, berr = w.r.Server.BroadcastNotification("notifications/message", map[string]interface{}{"tag": "bc"})
+			}
+			done.Set()
+		})
+		vsched.Quiesce()
+		for i := 0; i < 4 && !done.Get(); i++ { // 20 s pass while the reader is away
+			vsched.Sleep(5e9)
+			vsched.Quiesce()
+		}
+		w.peers[0].Stream.Stall(false)
+		vsched.Quiesce()
+		k := func(s string) string { return s + ":slow-reader:" + mode }
+		if !done.Get() {
+			viol = append(viol, V(k("send-hangs"), "the sends did not return after the reader resumed; blocked: %v", vsched.LiveThreads()))
+			return
+		}
+		got := w.notes(0)
+		var wantOK []string
+		for _, tag := range order {
+			n := count(got, tag)
+			switch {
+			case results[tag] == nil && n != 1:
+				viol = append(viol, V(k("order-or-count"), "notification %s was reported sent but appears %d times on the stream %v", tag, n, got))
+			case results[tag] != nil && n != 0:
+				viol = append(viol, V(k("reported-failed-but-delivered"), "notification %s was reported as failed (%v) but was delivered %d time(s): the caller's accounting (and any retry) is wrong", tag, results[tag], n))
+			}
+			if results[tag] == nil {
+				wantOK = append(wantOK, tag)
+			}
+		}
+		var gotOK []string
+		for _, g := range got {
+			if strings.HasPrefix(g, "s") && results[g] == nil {
+				gotOK = append(gotOK, g)
+			}
+		}
+		if strings.Join(gotOK, ",") != strings.Join(wantOK, ",") {
+			viol = append(viol, V(k("order-or-count"), "sent in the order %v, delivered in the order %v", wantOK, gotOK))
+		}
+		if w.r.Server != nil {
+			reached := count(got, "bc") + count(w.notes(1), "bc")
+			if berr == nil && bn != reached {
+				viol = append(viol, V(k("broadcast"), "broadcast reported %d sessions reached, its notification arrived on %d streams", bn, reached))
+			}
+		}
+		obs.Add("%v got=%v bn=%d", len(wantOK), got, bn)
+	})
+	return finishOutcome(res, obs, viol, true)
+}
+
 func c05Backlog(prefix []int, mode string, n int) explore.Outcome {
 	var viol []explore.Violation
 	obs := &hx.Log{}
@@ -752,6 +829,8 @@ func init() {
 	}
 	for _, mode := range []string{"ss", "ls"} {
 		mode := mode
+		RegisterScenario(&Scenario{Name: "c05/slow-reader/" + mode, Run: func(p []int, m []vsched.ChoicePoint) explore.Outcome { return c05SlowReader(p, mode) },
+			Doc: "three notifications and a broadcast to a session whose reader stays away for 20 virtual seconds, then resumes: reported results agree with what arrives"})
 		for _, n := range []int{3, 101, 103} {
 			n := n
 			RegisterScenario(&Scenario{Name: fmt.Sprintf("c05/backlog/%s/%d", mode, n), Run: func(p []int, m []vsched.ChoicePoint) explore.Outcome { return c05Backlog(p, mode, n) },
@@ -777,6 +856,7 @@ func init() {
 			}
 		}
 		for _, mode := range []string{"ss", "ls"} {
+			c.DFS("c05/slow-reader/"+mode, explore.Bounds{Preempt: c.Pick(1, 2), Dev: 0, POR: true, MaxExec: c.Pick(1500, 60000)})
 			for _, n := range []int{3, 101, 103} {
 				c.DFS(fmt.Sprintf("c05/backlog/%s/%d", mode, n), explore.Bounds{Preempt: c.Pick(1, 2), Dev: 0, POR: true, MaxExec: c.Pick(1500, 60000)})
 			}
